@@ -683,6 +683,10 @@ impl<'de> Deserializer<'de> {
                 .saturating_add(len)
                 .saturating_add(2),
         )?;
+        // the method name is a text: checked here, so that it is also checked when the reference is skipped
+        if std::str::from_utf8(meth).is_err() {
+            return Err(Error::msg("Method name is not valid UTF-8"));
+        }
         // TODO find a better way
         leb128::write::unsigned(&mut bytes, len as u64)?;
         bytes.extend_from_slice(meth);
